@@ -14,6 +14,10 @@ if rnd == "c":
     extra = """
 Additional guidance for this round: two earlier rounds already produced (1) direct changes at the obvious code sites for this property and (2) changes in shared helpers / caches / first-use order / multiple inheritance / slotted and abstract classes / class-name lookup caches / source-registry handling. Do NOT repeat those. Look for something of a different kind, for example: a change that only alters a rarely inspected part of a result (a returned flag, the type of a container, object identity where equality still holds, ordering among equal elements, which exception type is raised); an off-by-one or boundary effect that needs a particular size (exactly 0, 1, 2, 10, 11 elements; very long or empty strings; depth > 5); an interaction with a configuration switch (ID_DIGEST_SIZE, RUNTIME_TYPE_CHECK, TRACE_LOGGING) or with Python-level features of the node model (fields with default_factory, keyword-only vs positional fields, properties whose values are unusual but legal such as negative numbers, empty tuples, nested tuples, enums); an effect that needs the same operation to be applied twice, or two different operations in a particular order; effects on nodes that are detached, shared between two parents, or content-identical twins. Each change must still be a plausible refactoring / optimisation / cleanup and must keep all 244 tests passing.
 """
+elif rnd == "e":
+    extra = """
+Additional guidance for this round: four earlier rounds already produced (1) direct changes at the obvious code sites, (2) shared helpers / caches / first-use order / multiple inheritance / slotted and abstract classes, (3) boundary sizes, configuration switches, one-shot iterators, repeated calls, detached / shared / twin nodes, (4) uncommon spellings, unusual legal values (bytes, nested frozensets, str-mixin enums, -0.0), trees deeper than the recursion limit, deep copies, user-defined __eq__/__hash__/__len__, Any-typed properties holding nodes, subclasses in other modules, re-declared built-in fields, odd field names, error paths inside user callbacks, re-used visitor objects. Do NOT repeat those. Look for something of yet another kind, for example: a rarely used OPTIONAL PARAMETER of an API named in the statement (strict=, default=, exact_type=, skip_self=, sort_keys=, check_ancestor=, relative_to=, indent=, as_detached_clone=, ensure_unique_id=, create_detached=, mashumaro_dialect=, and the like) whose non-default value takes a slightly different code path; user SUBCLASSES of library classes other than nodes (a subclass of Origin / Source / Position / CodeOrigin, of Tree, of a visitor with its own __init__, of NodeMatcher) or node models using dataclass features (InitVar, ClassVar, default_factory, kw_only=True on the decorator, positional required fields after inherited defaults, field(hash=False), field(repr=False), field(metadata=...)); interactions between TWO different public operations where only the second one misbehaves (A then B, e.g. serialize then match, duplicate then transform, Tree then replace, xpath then pattern on the same text/objects); module-level state that is initialised lazily or at import (type registry TYPES, Source registry, caches) after another module registered classes with the same simple name; results that are right as a set but wrong in multiplicity or order; generators that are consumed partially and resumed after another call; equality between objects of different but related classes (subclass vs base, GeneratedCodeOrigin vs CodeOrigin, list vs tuple). Each change must still be a plausible refactoring / optimisation / cleanup and must keep all 244 tests passing.
+"""
 elif rnd == "d":
     extra = """
 Additional guidance for this round: three earlier rounds already produced (1) direct changes at the obvious code sites, (2) changes in shared helpers / caches / first-use order / multiple inheritance / slotted and abstract classes, (3) boundary sizes, configuration switches (TRACE_LOGGING, ID_DIGEST_SIZE, RUNTIME_TYPE_CHECK), one-shot iterators, repeated calls, detached/shared/twin nodes, str-mixin enums, nested frozensets, caller-owned option dicts. Do NOT repeat those. Look for something of yet another kind, for example: a less commonly used public entry point or spelling of the same operation that the statement covers (class-level vs instance-level call, positional vs keyword arguments, an alias, a convenience wrapper, `strict=`/`exact_type=`/`skip_self=`-style flags, passing a compiled object vs its text); a value or node-model feature that is legal but rarely combined (a field named like a library keyword or internal name, a class whose name is a prefix of / equal to another class in a different module, very deep but narrow trees, a tuple field holding the same child class at indices >= 100, negative / huge ints, floats like -0.0 / 1e300 / inf, bytes, strings with newlines or non-BMP characters, empty class bodies, a property typed `Any`/`object`); an interaction with Python runtime behaviour (garbage collection timing of weakly referenced nodes, `copy.copy`/`copy.deepcopy`/`pickle` of nodes, `dataclasses.replace`, subclass overriding `__post_init__`/`__eq__`/`__hash__`/`__repr__`, generic visitor subclasses overriding a hook); an error path (what is left behind after an exception inside user callbacks, filters, rules, visitors); asymmetry (a op b vs b op a, first vs last element, root vs non-root, the left-most vs right-most sibling). Each change must still be a plausible refactoring / optimisation / cleanup and must keep all 244 tests passing.
